@@ -118,6 +118,8 @@ def minimal_residual(A, b, x0=None, tol=1e-5,
         normMb = 1.0  # reset so that tol is unscaled
     else:
         normMb = norm(M @ b)
+        if normMb == 0.0:
+            normMb = 1.0  # absolute tolerance, as for ||b|| = 0
 
     # set the stopping criteria (see the docstring)
     if normr < tol * normMb:
